@@ -14,6 +14,7 @@ An *init* is::
      "heights": [..],                    one per block, dummy last
      "fuel_mat": "UZr" | "UraniumOxide", "clad_mat": "HT9" | "Inconel625",
      "bond": bool, "tight": bool,
+     "fat": None | "solid" | "hollow",   fuel od 0.98 with id 0.0 / 0.92 (a hollow pellet does not reach the slug below)
      "multi": bool,                      fuel od 1.05: overlaps two solids of the block below (linkage must be refused)
      "shield_mult": float | None,        other pin multiplicity in the shield block (fuel block unlinked from it)
      "targets": {"<block index>": "<component name>"},   explicit targets (others: default rule)
@@ -45,7 +46,10 @@ def block_table(init, kind):
     cool = build.comp("coolant", "DerivedShape", "Sodium", 450.0, _T(init, 450.0))
     if kind == "fuel":
         od = 0.999 if init.get("tight") else (1.05 if init.get("multi") else 0.86)
-        cs = [build.comp("fuel", "Circle", fuelm, 25.0, _T(init, 600.0), id=0.0, od=od, mult=NPINS)]
+        fid = 0.0
+        if init.get("fat"):  # thick pellet, solid or with a central hole wider than the shield slug (od 0.9) below
+            od, fid = 0.98, (0.92 if init["fat"] == "hollow" else 0.0)
+        cs = [build.comp("fuel", "Circle", fuelm, 25.0, _T(init, 600.0), id=fid, od=od, mult=NPINS)]
         if init.get("bond"):
             cs.append(build.comp("bond", "Circle", "Sodium", 450.0, _T(init, 450.0), id="fuel.od", od="clad.id", mult="fuel.mult"))
         cs.append(build.comp("clad", "Circle", clad, 25.0, _T(init, 470.0), id=1.0, od=1.09, mult="fuel.mult"))
@@ -149,9 +153,16 @@ def _resolve(table, comp, dim):
     return float(v)
 
 
-def solids(init, kind):
-    """[(name, shape, mult, lo, hi)] of the solid components of a block kind, child order, cold dims."""
-    table = block_table(init, kind)
+def solids(init, kind, over=None):
+    """[(name, shape, mult, lo, hi)] of the solid components of a block kind, child order, cold dims.
+    ``over``: {(component name, dimension): value} cold dimensions edited since construction."""
+    import copy
+
+    table = copy.deepcopy(block_table(init, kind))
+    for (cname, dim), val in (over or {}).items():
+        for c in table:
+            if c["name"] == cname:
+                c["dims"][dim] = float(val)
     out = []
     for c in table:
         if c["material"] in FLUIDS:
